@@ -81,10 +81,18 @@ type config struct {
 	halign   canvas.TextAlign
 	indent   float64
 	stretch  float64
+	// vertical part (family "vertical"): box height and vertical alignment; otherwise height 0, Top
+	vertical bool
+	height   float64
+	valign   canvas.TextAlign
 }
 
 func (c config) String() string {
-	return fmt.Sprintf("face=%s width=%g halign=%v indent=%g lineStretch=%g", faceLabels[c.faceMode], c.width, c.halign, c.indent, c.stretch)
+	s := fmt.Sprintf("face=%s width=%g halign=%v indent=%g lineStretch=%g", faceLabels[c.faceMode], c.width, c.halign, c.indent, c.stretch)
+	if c.vertical {
+		s += fmt.Sprintf(" height=%g valign=%v", c.height, c.valign)
+	}
+	return s
 }
 
 var (
@@ -99,8 +107,12 @@ func layout(toks []int, c config) (*canvas.Text, string) {
 		sb.WriteString(tokens[t])
 	}
 	s := sb.String()
+	height, valign := 0.0, canvas.Top
+	if c.vertical {
+		height, valign = c.height, c.valign
+	}
 	if c.faceMode < 3 {
-		return canvas.NewTextBox(faces[c.faceMode], s, c.width, 0, c.halign, canvas.Top, c.indent, c.stretch), s
+		return canvas.NewTextBox(faces[c.faceMode], s, c.width, height, c.halign, valign, c.indent, c.stretch), s
 	}
 	rt := canvas.NewRichText(faces[0])
 	for i, t := range toks {
@@ -110,7 +122,7 @@ func layout(toks []int, c config) (*canvas.Text, string) {
 			rt.WriteFace(faces[1], tokens[t])
 		}
 	}
-	return rt.ToText(c.width, 0, c.halign, canvas.Top, c.indent, c.stretch), s
+	return rt.ToText(c.width, height, c.halign, valign, c.indent, c.stretch), s
 }
 
 type glyphInfo struct {
@@ -142,10 +154,14 @@ func isDroppable(r rune) bool {
 const eps = 1e-6 // mm
 
 // CheckLayout lays out the token string under one configuration and checks every clause.
-func CheckLayout(r *fw.R, toks []int, c config) {
+// It returns the lines it read and whether lines were dropped because of the box height.
+func CheckLayout(r *fw.R, toks []int, c config) (result []lineInfo, dropped bool) {
 	feat := features(toks)
 	if c.width == 0 {
 		feat += "; no-wrap(width=0)"
+	}
+	if c.vertical {
+		feat += fmt.Sprintf("; valign=%v height=%g", c.valign, c.height)
 	}
 	viol := func(class, format string, a ...any) {
 		r.Outcome("VIOLATION:" + class + " {" + feat + "}")
@@ -184,6 +200,7 @@ func CheckLayout(r *fw.R, toks []int, c config) {
 		}
 		lines = append(lines, ln)
 	})
+	result = lines
 	if malformed != "" {
 		viol("malformed-span", "%s", malformed)
 		return
@@ -231,7 +248,8 @@ func CheckLayout(r *fw.R, toks []int, c config) {
 				prev = g.cluster
 				want, _ := utf8.DecodeRuneInString(in[g.cluster:])
 				lastOfLine := k == len(ln.spans)-1 && gi == len(sp.glyphs)-1
-				if g.r != want && !(want == '\u00AD' && g.r == '-' && lastOfLine && j < len(lines)-1) {
+				moreLines := j < len(lines)-1 || (c.vertical && c.height > 0) // lines may have been cut off by the box height
+				if g.r != want && !(want == '\u00AD' && g.r == '-' && lastOfLine && moreLines) {
 					viol("glyph-shows-another-character", "line %d span %d glyph %d shows %q for input %q; %s", j, k, gi, g.r, want, desc())
 					orderOK = false
 				}
@@ -246,9 +264,16 @@ func CheckLayout(r *fw.R, toks []int, c config) {
 		r.Outcome("order-broken")
 		return
 	}
-	for _, g := range gaps {
+	for gi, g := range gaps {
 		for _, ch := range in[g.lo:g.hi] {
 			if !isDroppable(ch) {
+				if gi == len(gaps)-1 && c.vertical && c.height > 0 {
+					// neither the statement (it quantifies over the box width only) nor the doc comments say
+					// what happens to lines that do not fit the height: tallied, and checked below only
+					// against "another line would certainly have fitted"
+					dropped = true
+					break
+				}
 				viol("visible-character-dropped", "bytes %d..%d %q are not laid out; %s", g.lo, g.hi, in[g.lo:g.hi], desc())
 				return
 			}
@@ -263,6 +288,9 @@ func CheckLayout(r *fw.R, toks []int, c config) {
 	case len(nonEmpty) == 0:
 		newlineOK = len(lines) >= nl(gaps[0])+1
 		extraEmpty = len(lines) > nl(gaps[0])+1
+		if !newlineOK && c.vertical && c.height > 0 {
+			newlineOK, dropped = true, true
+		}
 	default:
 		// m newlines between two pieces of text put them at least m lines apart; empty lines beyond
 		// that are not excluded by the statement and only tallied
@@ -282,7 +310,11 @@ func CheckLayout(r *fw.R, toks []int, c config) {
 		}
 		tail := len(lines) - 1 - nonEmpty[len(nonEmpty)-1]
 		if tail < nl(gaps[len(gaps)-1]) {
-			newlineOK = false
+			if c.vertical && c.height > 0 {
+				dropped = true // trailing (empty) lines cut off by the box height
+			} else {
+				newlineOK = false
+			}
 		}
 		if tail > nl(gaps[len(gaps)-1]) {
 			extraEmpty = true
@@ -462,6 +494,10 @@ func CheckLayout(r *fw.R, toks []int, c config) {
 		}
 	}
 
+	if c.vertical {
+		checkVertical(r, viol, t, in, lines, c, dropped, ptr, desc)
+	}
+
 	// ---- outcome classes
 	switch {
 	case t.Overflows:
@@ -472,6 +508,163 @@ func CheckLayout(r *fw.R, toks []int, c config) {
 		r.Outcome("fits:no-soft-break")
 	}
 	r.Max("lines", float64(len(lines)))
+	return
+}
+
+// maxLineHeight is the largest ascent+descent+line gap among the faces of a face mode.
+func maxLineHeight(faceMode int) float64 {
+	h := 0.0
+	fs := []*canvas.FontFace{faces[0], faces[1]}
+	if faceMode < 3 {
+		fs = []*canvas.FontFace{faces[faceMode]}
+	}
+	for _, f := range fs {
+		m := f.Metrics()
+		h = math.Max(h, m.Ascent+m.Descent+m.LineGap)
+	}
+	return h
+}
+
+// checkVertical: vertical alignment, containment in the box height and what happens when the
+// box is too low. Coordinates as WalkLines gives them: origin at the top left corner of the box
+// (doc comment of RenderAsPath), y negative downwards, so the box is [-height, 0].
+func checkVertical(r *fw.R, viol func(string, string, ...any), t *canvas.Text, in string, lines []lineInfo, c config, dropped bool, laidOutEnd int, desc func() string) {
+	H := c.height
+	tag := fmt.Sprintf("valign=%v,height=%g", c.valign, H)
+	if dropped {
+		r.Outcome(fmt.Sprintf("height-too-small:lines-dropped,Overflows=%v (not settled by statement/docs)", t.Overflows))
+		// the Text field
+		switch {
+		case t.Text == in:
+			r.Outcome("lines-dropped:Text-field=whole-input")
+		case !strings.HasPrefix(in, t.Text):
+			viol("Text-field-not-a-prefix-of-the-input", "Text=%q; %s", t.Text, desc())
+		default:
+			beyond := false
+			if len(t.Text) > laidOutEnd {
+				for _, ch := range in[laidOutEnd:len(t.Text)] {
+					if !isDroppable(ch) {
+						beyond = true
+					}
+				}
+			}
+			switch {
+			case len(t.Text) < laidOutEnd:
+				r.Outcome("lines-dropped:Text-field-shorter-than-what-is-laid-out")
+			case beyond:
+				r.Outcome("lines-dropped:Text-field-includes-characters-that-are-not-laid-out")
+			default:
+				r.Outcome("lines-dropped:Text-field=what-is-laid-out")
+			}
+		}
+	} else if t.Text != in {
+		r.Outcome("nothing-dropped-but-Text-field-differs-from-input")
+	}
+	if len(lines) == 0 {
+		if dropped {
+			r.Outcome("height-too-small:no-line-at-all")
+		}
+		return
+	}
+	// a dropped line although even the tallest line, stretched, with its gap, would certainly fit
+	if dropped {
+		used := lines[0].y - lines[len(lines)-1].y + maxLineHeight(c.faceMode)
+		need := 2 * (1 + c.stretch) * maxLineHeight(c.faceMode)
+		if H-used >= need+eps {
+			viol("lines-dropped-although-another-line-certainly-fits", "height %g, lines use at most %.6g, a line needs at most %.6g; %s", H, used, need, desc())
+		}
+	}
+	edge := func(ln lineInfo) (top, bottom float64, ok bool) {
+		if len(ln.spans) == 0 {
+			return 0, 0, false
+		}
+		a, d := 0.0, 0.0
+		for _, sp := range ln.spans {
+			a, d = math.Max(a, sp.asc), math.Max(d, sp.desc)
+		}
+		return ln.y + a, ln.y - d, true
+	}
+	// containment
+	if H > 0 && !t.Overflows {
+		for j, ln := range lines {
+			if top, bottom, ok := edge(ln); ok && (top > eps || bottom < -H-eps) {
+				viol("line-outside-box-height-without-Overflows", "line %d occupies y in [%.6g,%.6g], box [%g,0]; %s", j, bottom, top, -H, desc())
+				break
+			}
+		}
+	}
+	top, _, okTop := edge(lines[0])
+	_, bottom, okBottom := edge(lines[len(lines)-1])
+	if H == 0 && c.valign != canvas.Top {
+		// height 0 = "disabled" (doc comment); where the block goes for the other alignments is not said
+		if okTop && okBottom {
+			switch {
+			case math.Abs(top) <= eps:
+				r.Outcome(tag + ":block-hangs-from-origin")
+			case math.Abs(bottom) <= eps:
+				r.Outcome(tag + ":block-stands-on-origin")
+			case math.Abs(top+bottom) <= eps:
+				r.Outcome(tag + ":block-centred-on-origin")
+			default:
+				r.Outcome(tag + ":block-elsewhere")
+			}
+		}
+		return
+	}
+	switch c.valign {
+	case canvas.Top:
+		if !okTop {
+			r.Outcome("first-line-empty(top-edge-not-observable)")
+		} else if math.Abs(top) > eps {
+			viol("top-aligned-first-line-not-at-top", "top of first line at %.9g; %s", top, desc())
+		} else {
+			r.Outcome("valign-ok:Top")
+		}
+	case canvas.Bottom:
+		if !okBottom {
+			r.Outcome("last-line-empty(bottom-edge-not-observable)")
+		} else if math.Abs(bottom+H) > eps {
+			viol("bottom-aligned-last-line-not-at-bottom", "bottom of last line at %.9g, box bottom %g; %s", bottom, -H, desc())
+		} else {
+			r.Outcome("valign-ok:Bottom")
+		}
+	case canvas.Center, canvas.Middle:
+		if !okTop || !okBottom {
+			r.Outcome("first-or-last-line-empty(centring-not-observable)")
+		} else if math.Abs(-top-(bottom+H)) > eps {
+			viol("vertically-centred-block-not-centred", "margin above %.9g, below %.9g; %s", -top, bottom+H, desc())
+		} else {
+			r.Outcome("valign-ok:Center")
+		}
+	case canvas.Justify:
+		switch {
+		case dropped:
+			// what Justify does with the lines that remain is not settled: tally
+			if okTop && okBottom && math.Abs(top) <= eps && math.Abs(bottom+H) <= eps {
+				r.Outcome("valign-Justify-after-dropping-lines:remaining-lines-justified")
+			} else if okTop && math.Abs(top) <= eps {
+				r.Outcome("valign-Justify-after-dropping-lines:as-Top")
+			} else {
+				r.Outcome("valign-Justify-after-dropping-lines:other")
+			}
+		case len(lines) == 1:
+			if !okTop {
+				r.Outcome("first-line-empty(top-edge-not-observable)")
+			} else if math.Abs(top) > eps {
+				viol("vertically-justified-single-line-not-at-top", "top of the only line at %.9g; %s", top, desc())
+			} else {
+				r.Outcome("valign-ok:Justify-single-line")
+			}
+		default:
+			if !okTop || !okBottom {
+				r.Outcome("first-or-last-line-empty(justification-not-observable)")
+			} else if math.Abs(top) > eps || math.Abs(bottom+H) > eps {
+				viol("vertically-justified-block-does-not-span-the-box", "top of first line %.9g, bottom of last line %.9g, box [%g,0]; %s", top, bottom, -H, desc())
+			} else {
+				r.Outcome("valign-ok:Justify")
+			}
+		}
+	}
 }
 
 // naturalAdvance is the unstretched advance of the character at byte offset c: what the shaper
@@ -487,7 +680,7 @@ var shaped = map[int]float64{}
 
 func readShaped(toks []int, faceMode int) {
 	shaped = map[int]float64{}
-	t, _ := layout(toks, config{faceMode, 0, canvas.Left, 0, 0})
+	t, _ := layout(toks, config{faceMode: faceMode, halign: canvas.Left})
 	t.WalkLines(func(_ float64, spans []canvas.TextSpan) {
 		for _, sp := range spans {
 			for _, g := range sp.Glyphs {
@@ -684,7 +877,84 @@ func family(faceMode, maxLen int) fw.Family {
 			for _, w := range boxWidths {
 				for _, h := range haligns {
 					for _, in := range indents {
-						CheckLayout(r, toks, config{faceMode, w, h, in[0], in[1]})
+						CheckLayout(r, toks, config{faceMode: faceMode, width: w, halign: h, indent: in[0], stretch: in[1]})
+					}
+				}
+			}
+		},
+		Desc: func(i int64) string {
+			toks := decode(i, len(tokens))
+			return fmtTokens(toks) + " features=" + features(toks)
+		},
+	}
+}
+
+// verticalFamily: box height x vertical alignment (and the line-stretch relation) over a reduced
+// string set.
+func verticalFamily(faceMode, maxLen int, withMiddle bool) fw.Family {
+	heights := []float64{0, 30, 8}
+	valigns := []canvas.TextAlign{canvas.Top, canvas.Center, canvas.Bottom, canvas.Justify}
+	if withMiddle {
+		valigns = append(valigns, canvas.Middle)
+	}
+	const stretch = 0.25
+	return fw.Family{
+		Name: "vertical: strings x heights x valigns x " + faceLabels[faceMode], N: seqCount(len(tokens), maxLen),
+		Check: func(i int64, r *fw.R) {
+			loadFonts()
+			if fontErr != nil {
+				panic(fontErr)
+			}
+			toks := decode(i, len(tokens))
+			if faceMode == 3 && len(toks) < 3 {
+				r.Outcome("rich-text-needs-3-tokens(skipped)")
+				return
+			}
+			if len(toks) >= 2 {
+				r.NontrivialIdx()
+			}
+			readShaped(toks, faceMode)
+			for _, w := range []float64{8, 25} {
+				for _, h := range []canvas.TextAlign{canvas.Left, canvas.Justify} {
+					for _, H := range heights {
+						for _, va := range valigns {
+							c := config{faceMode: faceMode, width: w, halign: h, vertical: true, height: H, valign: va}
+							l0, d0 := CheckLayout(r, toks, c)
+							c.stretch = stretch
+							l1, d1 := CheckLayout(r, toks, c)
+							// line stretch: "percentage to stretch the line based on the line height"
+							if va == canvas.Justify || d0 || d1 || len(l0) != len(l1) || len(l0) < 2 {
+								continue
+							}
+							for j := 1; j < len(l0); j++ {
+								a, b := l0[j-1].y-l0[j].y, l1[j-1].y-l1[j].y
+								inclGap := math.Abs(b-(1+stretch)*a) <= eps
+								exclGap := false
+								if len(l0[j-1].spans) > 0 && len(l0[j].spans) > 0 {
+									d, as := 0.0, 0.0
+									for _, sp := range l0[j-1].spans {
+										d = math.Max(d, sp.desc)
+									}
+									for _, sp := range l0[j].spans {
+										as = math.Max(as, sp.asc)
+									}
+									exclGap = math.Abs(b-a-stretch*(d+as)) <= eps
+								}
+								switch {
+								case inclGap:
+									r.Outcome("line-stretch:baseline-distance x (1+stretch)")
+								case exclGap:
+									r.Outcome("line-stretch:baseline-distance + stretch x (descent+ascent)")
+								default:
+									r.Outcome("VIOLATION:line-stretch-not-the-documented-amount {" + features(toks) + "}")
+									if recorded["line-stretch"] < 6 {
+										recorded["line-stretch"]++
+										r.Violate("line-stretch-not-the-documented-amount", fmt.Sprintf("%s: baselines %d,%d are %.9g apart without and %.9g apart with lineStretch=%g; without: %s; with: %s",
+											c.String(), j-1, j, a, b, stretch, describe(l0), describe(l1)))
+									}
+								}
+							}
+						}
 					}
 				}
 			}
@@ -706,13 +976,31 @@ func families(tier string) []fw.Family {
 		fs = append(fs, family(2, n))
 	}
 	fs = append(fs, family(3, n))
+	// vertical alignment and box height
+	fs = append(fs, verticalFamily(0, n-1, true), verticalFamily(1, n-1, true))
+	if liberationPath() != "" {
+		fs = append(fs, verticalFamily(2, n-1, true))
+	}
+	fs = append(fs, verticalFamily(3, n-1, true))
+	if only := os.Getenv("C16_ONLY"); only != "" { // development aid
+		var sel []fw.Family
+		for _, f := range fs {
+			if strings.Contains(f.Name, only) {
+				sel = append(sel, f)
+			}
+		}
+		return sel
+	}
 	return fs
 }
 
 // Prop is the C16 check.
 func Prop() *fw.Property {
 	as := []string{
-		"horizontal writing mode, vertical alignment Top, height 0 (unbounded); vertical modes, inline objects and more than 5 tokens are outside the bound",
+		"horizontal writing mode; vertical modes, inline objects and more than 5 tokens (4 in the vertical-alignment family) are outside the bound",
+		"vertical family: origin = top left corner of the box, y negative downwards (doc comment of RenderAsPath), so the box is [-height,0]; Top: top of first line (baseline+ascent) at 0; Bottom: bottom of last line (baseline-descent) at -height; Center/Middle: equal margins; Justify: both, for >= 2 lines; a single line as Top; edges are only observable on lines that have spans",
+		"not settled by the statement (it quantifies over the box width only) or the doc comments, therefore tallied and not asserted: what happens to lines that do not fit the box height (observed: silently dropped, Overflows stays false), the content of the Text field after that, what vertical Justify does with the remaining lines, and where the block goes for Bottom/Center/Middle with height 0; asserted there: the laid-out part is still an ordered prefix, Text is a prefix of the input, and no line is dropped while 2 x (1+lineStretch) x the tallest line height would still fit",
+		"line stretch ('percentage to stretch the line based on the line height'): the baseline distance with lineStretch s must be (1+s) x the distance without it, or the distance plus s x (descent+ascent) (the two readings of 'line height'); which one holds is tallied",
 		"the shaper and the bidi algorithm are trusted: glyph clusters and embedding levels are taken as given",
 		"a justified line may end up to 2 font units per glyph away from the box width (glue is stretched in whole font units, DESIGN D21); the observed maximum is reported",
 		"box width 0 means 'no wrapping' (API doc); the fit clause is not applied there",
@@ -726,7 +1014,8 @@ func Prop() *fw.Property {
 		ID:    "C16",
 		Level: "exploration",
 		Rule: "every string of <= 4 (quick) / 5 (thorough) tokens over {a, V, fi, space, soft hyphen, no-break space, newline, hyphen, U+05D0, U+3000} x faces {DejaVuSerif 12pt, EBGaramond 10pt, Liberation Serif 12pt, RichText switching DejaVuSerif->EBGaramond after token 2} " +
-			"x box widths {0,8,11,14,25} mm x {Left,Right,Center,Justify} x (indent,lineStretch) in {(0,0),(3,0.25)}; one evaluation = one string and face under all 40 configurations; non-trivial = at least two visible characters",
+			"x box widths {0,8,11,14,25} mm x {Left,Right,Center,Justify} x (indent,lineStretch) in {(0,0),(3,0.25)}; one evaluation = one string and face under all 40 configurations; non-trivial = at least two visible characters; " +
+			"vertical family: every string of <= 3 (quick) / 4 (thorough) tokens x the same faces x widths {8,25} x {Left,Justify} x heights {0, 30, 8} mm x valign {Top,Center,Middle,Bottom,Justify} x lineStretch {0,0.25} = 120 layouts per evaluation, each pair of stretches compared",
 		Assumptions: as,
 		Families:    families,
 		KnownPredicates: map[string]func(*fw.Violation) bool{
